@@ -11,12 +11,14 @@ import (
 	"runtime/pprof"
 	"sort"
 	"strings"
+	"syscall"
 	"testing"
 	"testing/synctest"
 	"time"
 
 	"github.com/AdguardTeam/AdGuardDNS/internal/dnsserver/zzverif/vrt"
 	"github.com/AdguardTeam/AdGuardDNS/internal/filter"
+	"github.com/AdguardTeam/AdGuardDNS/internal/filter/filterstorage"
 )
 
 // dev is one deviation of the environment from "200 with the next complete
@@ -56,13 +58,14 @@ func scratchBase(t *testing.T) (dir string) {
 	if err != nil {
 		vrt.Fatalf("creating scratch dir: %v", err)
 	}
-	// renameio puts its temporary files into $TMPDIR when that is on the same
-	// file system as the cache directory; keep them out of /tmp.
-	tmp := filepath.Join(dir, "tmp")
-	if err = os.Mkdir(tmp, 0o700); err != nil {
-		vrt.Fatalf("creating scratch tmp dir: %v", err)
-	}
-	if err = os.Setenv("TMPDIR", tmp); err != nil {
+	// renameio puts its temporary file into $TMPDIR when that is on the file
+	// system of the cache directory and renames it across directories, else it
+	// creates it next to the cache file.  Point TMPDIR at a directory that
+	// does not exist: nothing goes to /tmp, and the renames stay inside one
+	// directory (cross-directory renames take a file-system-wide kernel lock,
+	// which serialises all check processes sharing the scratch file system;
+	// both placements are exercised by the kill-point unit).
+	if err = os.Setenv("TMPDIR", filepath.Join(dir, "no-such-tmp")); err != nil {
 		vrt.Fatalf("setting TMPDIR: %v", err)
 	}
 
@@ -79,7 +82,7 @@ func scratchRoot(t *testing.T) (root string) {
 	if d := os.Getenv("C13_SCRATCH"); d != "" {
 		return d
 	}
-	if fi, err := os.Stat("/dev/shm"); err == nil && fi.IsDir() {
+	if fi, err := os.Stat("/dev/shm"); err == nil && fi.IsDir() && hasRoom("/dev/shm") {
 		if probe, perr := os.MkdirTemp("/dev/shm", "c13-probe-"); perr == nil {
 			_ = os.Remove(probe)
 
@@ -91,6 +94,18 @@ func scratchRoot(t *testing.T) (root string) {
 	}
 
 	return t.TempDir()
+}
+
+// hasRoom reports whether the file system of dir has free inodes and space
+// for the scratch files of a check process (the shared tmpfs has been seen
+// with all its inodes used up by leftovers of other runs).
+func hasRoom(dir string) (ok bool) {
+	var st syscall.Statfs_t
+	if err := syscall.Statfs(dir, &st); err != nil {
+		return false
+	}
+
+	return st.Ffree >= 20000 && st.Bavail*uint64(st.Bsize) >= 256<<20
 }
 
 func TestVerifC13Faults(t *testing.T) {
@@ -132,6 +147,17 @@ func TestVerifC13Faults(t *testing.T) {
 		}
 	}
 	r.Bound("deviation_options", len(opts))
+	// The core options: every history with one deviation uses all options;
+	// histories with two deviations use the core options in the quick tier
+	// and all options in the thorough tier; histories with three deviations
+	// (thorough) use the core options.
+	var core []dev
+	for _, o := range opts {
+		if coreKind(o.P, o.K) {
+			core = append(core, o)
+		}
+	}
+	r.Bound("deviation_options_core", len(core))
 
 	vrt.Part(r, "storage",
 		func(emit func(faultCase)) {
@@ -141,6 +167,11 @@ func TestVerifC13Faults(t *testing.T) {
 				emit(faultCase{Rounds: rounds, Devs: []dev{opts[i]}})
 			}
 			if maxDevs >= 2 {
+				// Quick tier: pairs over the core options; thorough: all pairs.
+				opts := opts
+				if maxDevs == 2 && os.Getenv("C13_ALL_PAIRS") == "" {
+					opts = core
+				}
 				for i := range opts {
 					for j := i + 1; j < len(opts); j++ {
 						if sameSlot(opts[i], opts[j]) {
@@ -151,6 +182,7 @@ func TestVerifC13Faults(t *testing.T) {
 				}
 			}
 			if maxDevs >= 3 {
+				opts := core
 				for i := range opts {
 					for j := i + 1; j < len(opts); j++ {
 						if sameSlot(opts[i], opts[j]) {
@@ -218,9 +250,9 @@ func shadowed(plan map[string]string) (pos []string) {
 		switch {
 		case p != posIdx && (isFetchFault(idxKind) || idxKind == kNotJSON):
 			pos = append(pos, p)
-		case p == posL2 && in(idxKind, kBadKey, kEmptyURL, kBadURL):
+		case p == posL2 && (idxURLUnusable(idxKind) || idxKeyUnusable(idxKind)):
 			pos = append(pos, p)
-		case p == posSS && plan[posSvc] != "":
+		case p == posSS && (isFetchFault(plan[posSvc]) || plan[posSvc] == kNotJSON || svcIDUnusable(plan[posSvc])):
 			pos = append(pos, p)
 		}
 	}
@@ -309,7 +341,7 @@ func runStorageHistory(r *vrt.Run, dir string, c faultCase) (out []vrt.Finding) 
 	if err = s.RefreshInitial(ctx); err != nil {
 		vrt.Fatalf("initial refresh with a healthy network failed: %v", err)
 	}
-	prevObs, nq := probeStorage(ctx, s, versions)
+	prevObs, nq := probeStorage(ctx, s, 1)
 	r.Trans(1 + len(storagePositions) + nq)
 	for _, lst := range storageLists {
 		if prevObs[lst] != "v0" {
@@ -332,7 +364,8 @@ func runStorageHistory(r *vrt.Run, dir string, c faultCase) (out []vrt.Finding) 
 		w.setRound(round, plan)
 		refErr := s.Refresh(ctx)
 
-		obs, n := probeStorage(ctx, s, versions)
+		// No version above the one offered in this round exists yet.
+		obs, n := probeStorage(ctx, s, round+1)
 		files, temps, rerr := readCacheDir(dir)
 		if rerr != nil {
 			vrt.Fatalf("reading cache dir: %v", rerr)
@@ -364,6 +397,11 @@ func runStorageHistory(r *vrt.Run, dir string, c faultCase) (out []vrt.Finding) 
 		r.Trans(1 + nreq + n)
 
 		checkStorageRound(fs, round, plan, prevObs, obs, prevFiles, files)
+		foreign, nf := foreignContent(ctx, s, round+1)
+		r.Trans(nf)
+		if foreign != "" {
+			fs.add("serve/list-serves-another-lists-content", "round %d plan %v: %s", round, plan, foreign)
+		}
 
 		// Outcome class and observation log.
 		adv, abs := 0, 0
@@ -403,7 +441,10 @@ func runStorageHistory(r *vrt.Run, dir string, c faultCase) (out []vrt.Finding) 
 		brokenIndex := false
 		for _, pos := range []string{posIdx, posSvc} {
 			fv := fileVersion(pos, prevFiles[cacheFileOf(pos)], versions)
-			if fv == "notjson" || strings.HasSuffix(fv, "("+kBadSvcID+")") {
+			if fv == "notjson" {
+				brokenIndex = true
+			}
+			if i := strings.IndexByte(fv, '('); pos == posSvc && i >= 0 && svcIDUnusable(strings.TrimSuffix(fv[i+1:], ")")) {
 				brokenIndex = true
 			}
 		}
@@ -478,7 +519,7 @@ func checkStorageRound(
 ) {
 	offered := fmt.Sprintf("v%d", round)
 	idxKind, svcKind := plan[posIdx], plan[posSvc]
-	idxEntryFault := in(idxKind, kBadKey, kEmptyURL, kBadURL, kDupID)
+	idxEntryFault := idxPartlyInvalid(idxKind)
 
 	for _, lst := range storageLists {
 		prev, cur := prevObs[lst], obs[lst]
@@ -497,12 +538,12 @@ func checkStorageRound(
 			switch {
 			case isFetchFault(idxKind), idxKind == kNotJSON:
 				allowed, category = []string{prev}, "failed"
-			case lst == lstL2 && idxKind == kBadKey:
+			case lst == lstL2 && idxKeyUnusable(idxKind):
 				// The entry no longer names any list: indifferent between
 				// "keeps previous" and "no longer in the index" (the list
 				// is then not even requested, whatever its own deviation).
 				allowed, category = []string{prev, stAbsent}, "entry"
-			case lst == lstL2 && in(idxKind, kEmptyURL, kBadURL):
+			case lst == lstL2 && idxURLUnusable(idxKind):
 				// The entry still names list 2, so list 2 is the affected list.
 				allowed, category = []string{prev}, "entry"
 			case isFetchFault(own):
@@ -516,9 +557,11 @@ func checkStorageRound(
 			switch {
 			case isFetchFault(svcKind), svcKind == kNotJSON:
 				allowed, category = []string{prev}, "failed"
-			case svcKind == kBadSvcID && lst == lstS2:
+			case (svcIDUnusable(svcKind) || svcRulesMissing(svcKind)) && lst == lstS2:
 				// The statement speaks of partially invalid *indexes* of rule
-				// lists; for the service list it is silent: indifferent.
+				// lists; for the service list it is silent: indifferent.  (The
+				// code rejects the whole index for an unusable id and installs
+				// a service without rules as an empty one.)
 				allowed = []string{prev, stAbsent}
 			default:
 				allowed = []string{prev, offered}
@@ -575,6 +618,62 @@ func checkStorageRound(
 				round, plan, name, short(after), short(before), short(d))
 		}
 	}
+}
+
+// foreignContent probes every rule list and every service in isolation (a
+// client configuration that enables only that one) with the marker hosts of
+// its sibling from the same index.  A list must never serve the content of
+// another list, whatever happened to the index; with both siblings enabled
+// the sibling itself would mask it.  It returns a description of the first
+// foreign match, or "".
+func foreignContent(ctx context.Context, s *filterstorage.Default, versions int) (desc string, nq int) {
+	type iso struct {
+		lst, sibling string
+		conf         *filter.ConfigClient
+	}
+	rl := func(id filter.ID) *filter.ConfigClient {
+		return &filter.ConfigClient{
+			Custom:       &filter.ConfigCustom{},
+			Parental:     &filter.ConfigParental{},
+			RuleList:     &filter.ConfigRuleList{IDs: []filter.ID{id}, Enabled: true},
+			SafeBrowsing: &filter.ConfigSafeBrowsing{},
+		}
+	}
+	svc := func(id filter.BlockedServiceID) *filter.ConfigClient {
+		return &filter.ConfigClient{
+			Custom:       &filter.ConfigCustom{},
+			Parental:     &filter.ConfigParental{BlockedServices: []filter.BlockedServiceID{id}, Enabled: true},
+			RuleList:     &filter.ConfigRuleList{},
+			SafeBrowsing: &filter.ConfigSafeBrowsing{},
+		}
+	}
+	for _, i := range []iso{
+		{lst: lstL1, sibling: lstL2, conf: rl(idL1)},
+		{lst: lstL2, sibling: lstL1, conf: rl(idL2)},
+		{lst: lstS1, sibling: lstS2, conf: svc(idS1)},
+		{lst: lstS2, sibling: lstS1, conf: svc(idS2)},
+	} {
+		f := s.ForConfig(ctx, i.conf)
+		for v := range versions {
+			probeSeq++
+			host := fmt.Sprintf("n%d.%s", probeSeq, markerHost(i.sibling, v, "first"))
+			nq++
+			res, err := f.FilterRequest(ctx, newReq(host))
+			if err == nil && res == nil {
+				continue
+			}
+			if desc == "" {
+				if err != nil {
+					desc = fmt.Sprintf("list %s alone: filtering %s fails: %v", i.lst, host, err)
+				} else {
+					id, rule := res.MatchedRule()
+					desc = fmt.Sprintf("list %s alone filters %s, a host of list %s (matched by %s %s)", i.lst, host, i.sibling, id, rule)
+				}
+			}
+		}
+	}
+
+	return desc, nq
 }
 
 // runHPHistory executes one history of the real hashprefix filter.
